@@ -170,7 +170,7 @@ func (vfs *MemFS) createDir(parent *dirNode, name string, perm fs.FileMode) *dir
 	child := &dirNode{
 		baseNode: baseNode{
 			mtime: time.Now().UnixNano(),
-			mode:  vfs.dirMode | (perm & avfs.FileModeMask &^ vfs.UMask()),
+			mode:  vfs.dirMode | (perm & (fs.ModePerm | fs.ModeSticky) &^ vfs.UMask()),
 			uid:   vfs.User().Uid(),
 			gid:   vfs.User().Gid(),
 		},
